@@ -31,6 +31,9 @@ CLAIMED = {
  "C12": dict(technique="property-based aliasing test: deriving operation x follow-up mutation x side, snapshot of the untouched side (full grid enumerated + random recipes)",
              text="For 9 deriving operations, 7 follow-up mutations and both sides, the untouched object's complete observable state (ordered strict content, registered namespaces, default namespace, per bundle) is snapshotted before and after mutating the other object; the 9x7x2 grid is enumerated on seed documents in every run and sampled on random recipes.",
              note="Trusted: snapshot() over public accessors. One mutation per case (no long mutation sequences).", ref="4 C12"),
+ "C13": dict(technique="property-based purity/determinism test: random sequences of export calls, before/after snapshots, repeat and twin comparison",
+             text="Random sequences over 40 exporter/option/destination combinations (JSON, XML, RDF, PROV-N, get_provn, str, graph, DOT, ==, !=, hash, unified, flattened) run on generated documents; after every call the complete observable state must be unchanged (also when the exporter raises), each text export must repeat identically and agree with a twin built by replaying the recipe (RDF: isomorphic graphs).",
+             note="Trusted: snapshot() (public accessors, plus record.bundle links), rdflib.compare.isomorphic for RDF. RDF twin comparison sampled on documents with <= 6 records.", ref="4 C13"),
 }
 PENDING_REASON = "check not built yet in this round (design in DESIGN.md section 4); not claimed until the check exists and is quiet on the unchanged tree"
 checks = []
